@@ -14,11 +14,14 @@ of Lemmas/Layout.lean):
     `seg_start_pos` *is* the cursor) and is preserved by the monotone cursor; it does NOT follow from
     `layoutNW` for a nested segment whose first member is an SHT_NULL-typed (or index-0) section carrying
     an arbitrary offset, so it is kept as the Bool check `layoutStartsB` (evaluated along the layout, like
-    `layoutNW`), discharged here for flat objects (`layoutStartsB_of_flat`) and for nested segments whose
-    already generated first member occupies file space (`segStartLeB_of_occ`).
+    `layoutNW`; it also accepts a segment all of whose members are already generated — no address is assigned
+    there), discharged here for flat objects (`layoutStartsB_of_flat`), for flat + fully nested segments
+    (`layoutStartsB_of_mixed`), for nested segments whose already generated first member occupies file space
+    (`segStartLeB_of_occ`), and for any nesting from `layoutNW` plus the static condition `HeadOk` (first
+    member of every segment neither SHT_NULL-typed nor section 0: `layoutStartsB_of_static`, invariant `GenLe`).
 
   `stepNoWrap_of_layoutNW`, `resaveOkR_of_layoutNW`, `save_twice_runs'`, `save_twice_runs_flat'`,
-  `Compose.save_load_save_flat'`.
+  `save_twice_runs_static'`, `Compose.save_load_save_flat'`, `Compose.save_load_save_nested_input'`.
 -/
 import ElfioVerif.Props.C06Runs
 import ElfioVerif.Props.C04
@@ -432,6 +435,227 @@ theorem layoutStartsB_of_mixed {cov ins : Bool} {o : Obj} {h : Bytes} {selE selN
         · rw [hN] at hf; cases hf
         · exact segStartLeB_of_nested _ _ _ _ lay g hf.2
 
+/-! ### `seg_start_pos ≤ cursor` from a static condition on the member lists
+
+Under `layoutNW` every generated section that is not SHT_NULL-typed and not section 0 was placed at the
+then-current cursor, hence starts at or below the cursor ever after (`GenLe`).  A nested segment starts at
+its first member's offset: if that member is such a section, `seg_start_pos ≤ cursor`. -/
+
+/-- generated sections that are not SHT_NULL-typed and do not carry index 0 start at or below the cursor -/
+def GenLe (lay : Layout) : Prop :=
+  ∀ (k : Nat) (s : SecBuf), lay.gen[k]? = some true → lay.secs[k]? = some s → wsd_is_null s.stype = false →
+    s.index ≠ 0 → s.offset.toNat ≤ lay.pos.toNat
+
+theorem lt_of_getElem? {α} {l : List α} {k : Nat} {a : α} (h : l[k]? = some a) : k < l.length := by
+  rcases Nat.lt_or_ge k l.length with h' | h'
+  · exact h'
+  · rw [List.getElem?_eq_none h'] at h; cases h
+
+theorem wsdStep_genLe {c : Cls} {g : Seg} {ss : BitVec 64} {st st' : WsdSt} {idx : BitVec 16}
+    (hnw : wsdStepNW c g ss st idx = true) (h : wsdStep c g ss st idx = .ok (some st'))
+    (hP : GenLe st.lay) : GenLe st'.lay := by
+  obtain ⟨sec, generated, hsec, hgen, hcases⟩ := wsdStep_cases c g ss st st' idx h
+  have hslen : idx.toNat < st.lay.secs.length := lt_of_getElem? hsec
+  rcases hcases with ⟨hn, rfl⟩ | ⟨hn, gap, hgap, hc⟩
+  · intro k s hg hs hnn hi
+    simp only at hg hs
+    by_cases e : idx.toNat = k
+    · subst e; rw [hsec] at hs; cases hs; rw [hn] at hnn; cases hnn
+    · rw [List.getElem?_set_ne e] at hg; exact hP k s hg hs hnn hi
+  · rcases hc with ⟨-, rfl⟩ | ⟨hgf, rfl⟩
+    · exact hP
+    · subst hgf
+      unfold wsdStepNW at hnw
+      rw [hsec, hgen] at hnw
+      simp only [hn, Bool.false_eq_true, if_false, hgap, Bool.and_eq_true, decide_eq_true_eq] at hnw
+      obtain ⟨⟨h01, h12⟩, hfit⟩ := hnw
+      intro k s hg hs hnn hi
+      simp only at hg hs ⊢
+      by_cases e : idx.toNat = k
+      · subst e
+        rw [List.getElem?_set_self hslen] at hs; cases hs
+        have hidx : sec.index ≠ 0 := by
+          rw [← (wsdPlace_moved c g ss st.lay.pos gap sec).index]; exact hi
+        obtain ⟨f1, f2, f3, -⟩ := wsdPlace_facts c g ss st.lay.pos gap sec hidx h01 h12 hfit
+        rw [f1, f2, f3]; split <;> omega
+      · rw [List.getElem?_set_ne e] at hg hs
+        have := hP k s hg hs hnn hi
+        omega
+
+theorem wsdLoop_genLe {c : Cls} {g : Seg} {ss : BitVec 64} (l : List (BitVec 16)) {st st' : WsdSt}
+    (hnw : wsdLoopNW c g ss l st = true) (h : wsdLoop c g ss l st = .ok (some st'))
+    (hP : GenLe st.lay) : GenLe st'.lay := by
+  induction l generalizing st with
+  | nil =>
+    simp only [wsdLoop, pure, Except.pure, Except.ok.injEq, Option.some.injEq] at h
+    subst h; exact hP
+  | cons idx rest ih =>
+    unfold wsdLoop at h
+    unfold wsdLoopNW at hnw
+    cases hs : wsdStep c g ss st idx with
+    | error e => rw [hs] at h; simp [bind, Except.bind] at h
+    | ok r =>
+      rw [hs] at h hnw
+      cases r with
+      | none => simp [bind, Except.bind, pure, Except.pure] at h
+      | some st1 =>
+        simp only [bind, Except.bind, Bool.and_eq_true] at h hnw
+        exact ih hnw.2 h (wsdStep_genLe hnw.1 hs hP)
+
+theorem layoutSegment_genLe {c : Cls} {phoff : BitVec 64} {pe pn : BitVec 16} {lay lay' : Layout} {g g' : Seg}
+    (hnw : segNW c phoff pe pn lay g = true)
+    (h : layoutSegment c phoff pe pn lay g = .ok (some (lay', g'))) (hP : GenLe lay) : GenLe lay' := by
+  obtain ⟨fg, r, st, hfg, hin, hw, rfl, -⟩ := layoutSegment_parts c phoff pe pn lay lay' g g' h
+  unfold segNW at hnw
+  rw [hfg] at hnw
+  simp only at hnw
+  rw [hin] at hnw
+  simp only [Bool.and_eq_true, decide_eq_true_eq] at hnw
+  have hl := segInit_lay c phoff pe pn lay g fg r hin
+  have hP1 : GenLe r.1 := by
+    rw [hl]
+    intro k s hg hs hnn hi
+    have := hP k s hg hs hnn hi
+    simp only
+    omega
+  exact wsdLoop_genLe (st := { lay := r.1, mem := r.2.2.1, file := r.2.2.2 }) g.secs hnw.2 hw hP1
+
+/-- static condition on a member list: fewer than 2^16 members, and the first member is a section that is
+    neither SHT_NULL-typed nor section 0 -/
+def HeadOk (secs : List SecBuf) (g : Seg) : Prop :=
+  g.secs.length < 65536 ∧
+  ∀ f s, g.secs.head? = some f → secs[f.toNat]? = some s → wsd_is_null s.stype = false ∧ s.index ≠ 0
+
+/-- `HeadOk`, evaluated -/
+def headOkB (secs : List SecBuf) (g : Seg) : Bool :=
+  decide (g.secs.length < 65536) &&
+  match g.secs.head? with
+  | none => true
+  | some f =>
+    match secs[f.toNat]? with
+    | none => true
+    | some s => !wsd_is_null s.stype && s.index != 0
+
+theorem headOk_of_B {secs : List SecBuf} {g : Seg} (h : headOkB secs g = true) : HeadOk secs g := by
+  unfold headOkB at h
+  simp only [Bool.and_eq_true, decide_eq_true_eq] at h
+  refine ⟨h.1, fun f s hf hk => ?_⟩
+  have h2 := h.2
+  rw [hf] at h2
+  simp only at h2
+  rw [hk] at h2
+  simpa using h2
+
+theorem lseg_is_phdr_members (t : BitVec 32) (n : Nat) (h0 : 0 < n) (hn : n < 65536) :
+    lseg_is_phdr t (BitVec.ofNat 16 n) = false := by
+  unfold lseg_is_phdr
+  have : (BitVec.setWidth 32 (BitVec.ofNat 16 n) == 0#32) = false := by
+    rw [beq_eq_false_iff_ne]
+    intro e
+    have := congrArg BitVec.toNat e
+    simp only [BitVec.toNat_setWidth, BitVec.toNat_ofNat, Nat.reducePow, Nat.zero_mod] at this
+    omega
+  rw [this, Bool.and_false]
+
+theorem segStartLeB_of_genLe (c : Cls) (phoff : BitVec 64) (pe pn : BitVec 16) (lay : Layout) (g : Seg)
+    (hP : GenLe lay) (hh : HeadOk lay.secs g) : segStartLeB c phoff pe pn lay g = true := by
+  unfold segStartLeB
+  cases hq : g.secs with
+  | nil => rfl
+  | cons a b =>
+    rw [← hq]
+    have hne : g.secs.isEmpty = false := by rw [hq]; rfl
+    have hhead : g.secs.head? = some a := by rw [hq]; rfl
+    have hpos : g.secs.length > 0 := by rw [hq]; simp
+    have hph := lseg_is_phdr_members g.stype g.secs.length hpos hh.1
+    rw [hne, Bool.false_or]
+    unfold segStartOf
+    cases hg : lay.gen[a.toNat]? with
+    | none => simp [hhead, hg, bind, Except.bind, throw, throwThe, MonadExceptOf.throw]
+    | some b0 =>
+      by_cases h2 : lseg_offset0 g.offsetSet g.offset = true
+      · simp [hhead, hg, hph, h2, hpos, bind, Except.bind, pure, Except.pure]
+      · cases b0 with
+        | false => simp [hhead, hg, hph, h2, hpos, bind, Except.bind, pure, Except.pure]
+        | true =>
+          cases hs : lay.secs[a.toNat]? with
+          | none => simp [hhead, hg, hph, h2, hpos, hs, bind, Except.bind, pure, Except.pure, throw, throwThe,
+              MonadExceptOf.throw]
+          | some s =>
+            obtain ⟨k1, k2⟩ := hh.2 a s hhead hs
+            have hle : s.offset.toNat ≤ lay.pos.toNat := hP a.toNat s hg hs k1 k2
+            simp [hhead, hg, hph, h2, hpos, hs, bind, Except.bind, pure, Except.pure, hle]
+
+theorem moved_back {lay lay' : Layout} (hs : LayStep lay lay') {k : Nat} {s' : SecBuf}
+    (hk : lay'.secs[k]? = some s') : ∃ s, lay.secs[k]? = some s ∧ SecBuf.Moved s s' := by
+  have hk' : k < lay.secs.length := by rw [← hs.len]; exact lt_of_getElem? hk
+  obtain ⟨s2, h2, hm2⟩ := hs.moved k lay.secs[k] (List.getElem?_eq_getElem hk')
+  rw [hk] at h2; cases h2
+  exact ⟨_, List.getElem?_eq_getElem hk', hm2⟩
+
+theorem HeadOk.step {lay lay' : Layout} {g : Seg} (h : HeadOk lay.secs g) (hs : LayStep lay lay') :
+    HeadOk lay'.secs g := by
+  refine ⟨h.1, fun f s' hf hk => ?_⟩
+  obtain ⟨s, hs0, hm⟩ := moved_back hs hk
+  rw [hm.stype, hm.index]
+  exact h.2 f s hf hs0
+
+theorem segsAllB_startLe {c : Cls} {phoff : BitVec 64} {pe pn : BitVec 16} (l : List Seg) {lay : Layout} {lo : Nat}
+    (hinv : LayInv lo lay) (hP : GenLe lay) (hnw : segsNW c phoff pe pn l lay = true)
+    (hh : ∀ g ∈ l, HeadOk lay.secs g) :
+    segsAllB (segStartLeB c phoff pe pn) c phoff pe pn l lay = true := by
+  induction l generalizing lay with
+  | nil => rfl
+  | cons g rest ih =>
+    unfold segsNW at hnw
+    unfold segsAllB
+    simp only [Bool.and_eq_true] at hnw ⊢
+    refine ⟨segStartLeB_of_genLe c phoff pe pn lay g hP (hh g List.mem_cons_self), ?_⟩
+    cases hs : layoutSegment c phoff pe pn lay g with
+    | error e => rfl
+    | ok r =>
+      cases r with
+      | none => rfl
+      | some r =>
+        obtain ⟨lay1, g1⟩ := r
+        have h2 := hnw.2
+        rw [hs] at h2
+        obtain ⟨i1, s1⟩ := layoutSegment_inv c phoff pe pn lay lay1 g g1 lo hinv hnw.1 hs
+        exact ih i1 (layoutSegment_genLe hnw.1 hs hP) h2
+          (fun g' hg' => (hh g' (List.mem_cons_of_mem _ hg')).step s1)
+
+/-- **`layoutStartsB` from `layoutNW` and a static condition**: every segment has fewer than 2^16 members
+    and its first member is a section that is neither SHT_NULL-typed nor section 0 (`HeadOk`) -/
+theorem layoutStartsB_of_static {o : Obj} {h : Bytes} (hn : o.secs.length < 65536)
+    (h0 : ∀ (i : Nat) (s : SecBuf), o.secs[i]? = some s → s.Occ → s.index ≠ 0)
+    (hnw : layoutNW o h = true) (hstat : ∀ g ∈ o.segs, HeadOk o.secs g) : layoutStartsB o h = true := by
+  unfold layoutStartsB
+  unfold layoutNW at hnw
+  cases hl : layoutOf o h with
+  | error e => rfl
+  | ok r =>
+    cases r with
+    | none => rfl
+    | some res =>
+      rw [hl] at hnw
+      simp only [Bool.and_eq_true, decide_eq_true_eq] at hnw ⊢
+      obtain ⟨-, -, hmap, hord, -, -, -, -⟩ := layoutOf_parts o h res hl
+      have hp := orderedSegments_perm _ _ hord
+      have hsecs := (mapM_calcSegAlign _ _ _ hmap).2
+      have hP0 : GenLe (lay0Of o res.pos0) := by
+        intro k s hg
+        have : (List.replicate (o.secs.length % 65536) false)[k]? = some true := hg
+        rw [List.getElem?_replicate] at this
+        split at this <;> cases this
+      refine segsAllB_startLe res.ordered (lay0_inv o res.pos0 hn h0) hP0 hnw.1.1 (fun g hg => ?_)
+      have hg0 : g ∈ res.segs0 := (hp.mem_iff).1 hg
+      have : g.secs ∈ res.segs0.map (·.secs) := List.mem_map_of_mem hg0
+      rw [hsecs] at this
+      obtain ⟨g0, hg0m, e⟩ := List.mem_map.1 this
+      have := hstat g0 hg0m
+      unfold HeadOk at this ⊢
+      rw [← e]; exact this
+
 /-! ### the saved object -/
 
 /-- **`ResaveOkR` from `ResaveOkC` and `layoutNW`.**  For an object whose layout succeeds (`layoutOf`,
@@ -535,6 +759,42 @@ theorem save_twice_runs_flat' {o : Obj} {os : OStream} {r : SaveRes} {hd : Bytes
     (hdom : layoutDomB cov ins (fun _ => true) (preSave o) hd = true)
     (hs : save o os = .ok r) (hok : r.ok = true) : save r.obj os = .ok r :=
   (save_twice_runs' hh hl hidx hz hn h0 hnull0 hC hnw (layoutStartsB_of_flat hdom) hs hok).1
+
+/-- **save_twice_runs_static'** : `save_twice_runs'` with `layoutStartsB` replaced by a static condition on
+    the member lists: every segment has fewer than 2^16 members and its first member is a section that is
+    neither SHT_NULL-typed nor section 0 (`HeadOk`; any nesting, also partial).  Everything else as in
+    `save_twice_runs'`: the no-wrap hypothesis is C04's `layoutNW` alone. -/
+theorem save_twice_runs_static' {o : Obj} {os : OStream} {r : SaveRes} {hd : Bytes}
+    (hh : o.hdr = some hd) (hl : ehdrSize o.cls ≤ hd.length) (hidx : SegIdxOk o.segs) (hz : FrontOk o.segs)
+    (hn : o.secs.length < 65536)
+    (h0 : ∀ (i : Nat) (s : SecBuf), o.secs[i]? = some s → s.Occ → s.index ≠ 0)
+    (hnull0 : ∀ s ∈ o.secs, s.stype = BitVec.ofNat 32 SHT_NULL → s.size = 0)
+    (hC : ResaveOkC o hd) (hnw : layoutNW (preSave o) hd = true)
+    (hstat : ∀ g ∈ o.segs, HeadOk o.secs g)
+    (hs : save o os = .ok r) (hok : r.ok = true) : save r.obj os = .ok r := by
+  have hn' : (preSave o).secs.length < 65536 := by rw [preSave_length]; exact hn
+  have hstat' : ∀ g ∈ (preSave o).segs, HeadOk (preSave o).secs g := by
+    intro g hg
+    refine ⟨(hstat g hg).1, fun f s hf hk => ?_⟩
+    obtain ⟨s0, hs0, hhd⟩ := hdrOf_getElem? (preSave_hdr o) f.toNat s hk
+    simp only [hdrOf, Prod.mk.injEq] at hhd
+    rw [← hhd.2.2.1, ← hhd.2.2.2.1]
+    exact (hstat g hg).2 f s0 hf hs0
+  exact (save_twice_runs' hh hl hidx hz hn h0 hnull0 hC hnw
+    (layoutStartsB_of_static hn' (preSave_h0 o h0) hnw hstat') hs hok).1
+
+/-- non-vacuity of `save_twice_runs_static'`: `exObj32` (the nested segment's first member is `.data`) -/
+example : ∀ r, save exObj32 {} = .ok r → r.ok = true → save r.obj {} = .ok r := by
+  intro r hs hok
+  obtain ⟨h1, h2, h3, h4, h5, _⟩ := exObj32_resave
+  refine save_twice_runs_static' h1 h2 h3 (Or.inl h4) (by decide) ?_ ?_ h5 (by decide +kernel) ?_ hs hok
+  · have : ∀ s ∈ exObj32.secs, s.Occ → s.index ≠ 0 := by decide
+    intro i s hs; exact this s (List.mem_of_getElem? hs)
+  · have : ∀ s ∈ exObj32.secs, s.stype = BitVec.ofNat 32 SHT_NULL → s.size = 0 := by decide
+    exact this
+  · have : exObj32.segs.all (headOkB exObj32.secs) = true := by decide +kernel
+    intro g hg
+    exact headOk_of_B (List.all_eq_true.1 this g hg)
 
 /-- non-vacuity: the ELF32 object of Props/C06Cls.lean (PT_LOAD over `.text`/`.data`, a nested segment over
     `.data`, a loose section) meets every hypothesis of `save_twice_runs'` — the nested segment starts at its
